@@ -169,7 +169,7 @@ def csolver(skind, tag, calls):
 
 
 def cquirks(q):
-    return "(mkQ %s %s %s)" % (cbool(q["case"]), cbool(q["single"]), cbool(q["tobs"]))
+    return "(mkQ %s %s %s %s)" % (cbool(q["case"]), cbool(q["single"]), cbool(q["tobs"]), cbool(q["spline"]))
 
 
 # ------------------------------------------------------------------------------------------------
@@ -183,22 +183,43 @@ class Recorder:
         self.solver_calls, self.i1, self.i2, self.k = [], [], [], 0
 
 
+def densify(A):
+    return np.array(A.toarray() if scipy.sparse.issparse(A) else A, dtype=float)
+
+
 class SolverBox:
-    """linalg_solve stand-ins.  kind: real | real_tuple | real_tuple1 | fake | fake_tuple"""
+    """linalg_solve stand-ins.  kind: real | real_tuple | real_tuple1 | fake | fake_tuple | spsolve (scipy.sparse.linalg.spsolve on
+    what the PDE class hands over) | cg_tuple (scipy.sparse.linalg.cg, returns (x, info)) | real_inplace (overwrites the A and b it
+    was given, as LAPACK's overwrite_a/overwrite_b do) | real_buffer (returns the same output buffer on every call)"""
 
     def __init__(self, kind, rec):
         self.kind, self.rec = kind, rec
+        self.buf = None
 
-    def __call__(self, A, b, *args, **kw):
-        A = np.array(A, dtype=float)
-        b = np.array(b, dtype=float)
-        if self.kind.startswith("fake"):
-            x = (2 * np.eye(len(b)) - A) @ b
-        else:
-            x = REAL_SOLVE(A, b)
+    def __call__(self, A_in, b_in, *args, **kw):
+        import scipy.sparse.linalg as spla
+        A = densify(A_in)
+        b = np.array(b_in, dtype=float).ravel()
+        info = None
         k = self.rec.k
         self.rec.k += 1
-        info = None
+        if self.kind.startswith("fake"):
+            x = (2 * np.eye(len(b)) - A) @ b
+        elif self.kind == "spsolve":
+            x = spla.spsolve(scipy.sparse.csr_matrix(A_in), np.asarray(b_in, dtype=float).ravel())
+        elif self.kind == "cg_tuple":
+            x, flag = spla.cg(A_in if scipy.sparse.issparse(A_in) else np.asarray(A_in), np.asarray(b_in, dtype=float).ravel(), rtol=kw["rtol"], atol=0.0)
+            info = [int(flag)]
+        else:
+            x = REAL_SOLVE(A, b)
+        if self.kind == "real_inplace" and isinstance(A_in, np.ndarray) and isinstance(b_in, np.ndarray):
+            A_in[...] = np.nan
+            b_in[...] = np.nan
+        if self.kind == "real_buffer":
+            if self.buf is None or self.buf.shape != np.shape(x):
+                self.buf = np.empty(np.shape(x))
+            self.buf[...] = x
+            x = self.buf
         if self.kind in ("real_tuple", "fake_tuple"):
             info = [k, kw["tag"]]
         elif self.kind == "real_tuple1":
@@ -276,10 +297,15 @@ class Patches:
         scipy.linalg.solve, scipy.interpolate.RectBivariateSpline, self.pm.interp1d = self.saved
 
 
-def np_form(af, steady=False):
+def np_form(af, steady=False, style=None):
+    """style: dict(sparse=None|'csr'|'csc'|'dia', src=None|'scalar'|'one', buffered=bool): how the user's PDE_form declares
+    the same mathematical objects (sparse operator; scalar / one-element source to be broadcast; persistent output buffers that
+    are overwritten on every call)"""
+    style = style or {}
     A0, At, Ap = np.array(af["A0"], dtype=float), np.array(af["At"], dtype=float), [np.array(E, dtype=float) for E in af["Ap"]]
     b0, bt, Bp = np.array(af["b0"], dtype=float), np.array(af["bt"], dtype=float), np.array(af["Bp"], dtype=float)
     c0, ct, Cp = np.array(af["c0"], dtype=float), np.array(af["ct"], dtype=float), np.array(af["Cp"], dtype=float)
+    bufs = {}
 
     def form(p, t):
         p = np.asarray(p, dtype=float)
@@ -287,7 +313,18 @@ def np_form(af, steady=False):
         for i, E in enumerate(Ap):
             if i < len(p):
                 A = A + p[i] * E
-        return (A, b0 + t * bt + Bp @ p, c0 + t * ct + Cp @ p)
+        b, c = b0 + t * bt + Bp @ p, c0 + t * ct + Cp @ p
+        if style.get("buffered"):
+            for nm, v in (("A", A), ("b", b), ("c", c)):
+                if nm not in bufs:
+                    bufs[nm] = np.empty_like(v)
+                bufs[nm][...] = v
+            A, b, c = bufs["A"], bufs["b"], bufs["c"]
+        if style.get("sparse"):
+            A = getattr(scipy.sparse, style["sparse"] + "_matrix")(A)
+        if style.get("src") == "scalar":
+            b = float(b[0])
+        return (A, b, c)
     if steady:
         return lambda p: form(p, 0.0)[:2]
     return form
@@ -300,6 +337,8 @@ def mk_solver_args(cfg, rec):
     kw = {"linalg_solve": SolverBox(sk, rec)}
     if sk in ("real_tuple", "fake_tuple"):
         kw["linalg_solve_kwargs"] = {"tag": cfg["tag"]}
+    if sk == "cg_tuple":
+        kw["linalg_solve_kwargs"] = {"rtol": 1e-14}
     return kw
 
 
@@ -319,13 +358,13 @@ def mk_td(cuqi, cfg, rec, form=None):
     tobs = cfg["tobs"]
     if isinstance(tobs, list):
         tobs = np.array(tobs, dtype=float) if cfg.get("tobs_as_array", True) else list(tobs)
-    return cuqi.pde.TimeDependentLinearPDE(form or np_form(cfg["af"]), np.array(cfg["times"], dtype=float), time_obs=tobs,
+    return cuqi.pde.TimeDependentLinearPDE(form or np_form(cfg["af"], style=cfg.get("style")), np.array(cfg["times"], dtype=float), time_obs=tobs,
                                            method=cfg["method"], grid_sol=aslist(cfg["gsol"]), grid_obs=asgrid_obs(cfg),
                                            observation_map=pymap(cfg["omap"]), **mk_solver_args(cfg, rec))
 
 
 def mk_ss(cuqi, cfg, rec, form=None):
-    return cuqi.pde.SteadyStateLinearPDE(form or np_form(cfg["af"], steady=True), grid_sol=aslist(cfg["gsol"]),
+    return cuqi.pde.SteadyStateLinearPDE(form or np_form(cfg["af"], steady=True, style=cfg.get("style")), grid_sol=aslist(cfg["gsol"]),
                                          grid_obs=asgrid_obs(cfg), observation_map=pymap(cfg["omap"]),
                                          **mk_solver_args(cfg, rec))
 
@@ -401,10 +440,12 @@ def fr_form(af, p, t):
     """the affine PDE form in exact arithmetic: (A, b, ic) at (p, t)"""
     p = fr_vec(p)
     t = frac(float(t))
-    n = len(af["b0"])
+    n = len(af["c0"])
     A = [[frac(af["A0"][i][j]) + t * frac(af["At"][i][j]) + sum(p[k] * frac(af["Ap"][k][i][j]) for k in range(min(len(p), len(af["Ap"]))))
           for j in range(n)] for i in range(n)]
-    b = [frac(af["b0"][i]) + t * frac(af["bt"][i]) + sum(frac(af["Bp"][i][k]) * p[k] for k in range(len(p))) for i in range(n)]
+    b = [frac(af["b0"][i]) + t * frac(af["bt"][i]) + sum(frac(af["Bp"][i][k]) * p[k] for k in range(len(p))) for i in range(len(af["b0"]))]
+    if len(b) == 1 and n != 1:
+        b = b * n                      # a scalar / one-element source term is broadcast
     c = [frac(af["c0"][i]) + t * frac(af["ct"][i]) + sum(frac(af["Cp"][i][k]) * p[k] for k in range(len(p))) for i in range(n)]
     return A, b, c
 
@@ -492,7 +533,8 @@ def o_check_levels(cfg, p, u, info, rec_calls, tol):
     if nt != len(times):
         return "solution has %d time levels for %d time steps" % (nt, len(times))
     _, _, ic = fr_form(af, p, times[0])
-    if n != len(ic) or not all(close(u[i, 0], ic[i], tol) for i in range(n)):
+    uscale = float(np.max(np.abs(u))) if u.size else 0.0
+    if n != len(ic) or not all(abs(float(u[i, 0]) - float(ic[i])) <= tol * uscale for i in range(n)):
         return "level 0 %s is not the initial condition %s" % (u[:, 0].tolist(), [float(v) for v in ic])
     for k in range(nt - 1):
         dt = times[k + 1] - times[k]
@@ -515,7 +557,7 @@ def o_check_levels(cfg, p, u, info, rec_calls, tol):
             else:
                 res = [uk1[i] - dt * Au[i] - (uk[i] + dt * b[i]) for i in range(n)]
                 what = "(I - dt A(t_k+1)) u[k+1] = u[k] + dt b(t_k+1)"
-        scale = 1 + max(abs(float(v)) for v in uk + uk1)
+        scale = max(abs(float(v)) for v in uk + uk1 + [dt * x for x in b])
         if max(abs(float(r)) for r in res) > max(tol, 1e-9) * scale * 10:
             return "time level %d violates %s: residual %s (dt=%s)" % (k + 1, what, [float(r) for r in res], float(dt))
     # info: what the solver returned besides the solution at the LAST step; None for plain solvers and forward Euler
@@ -525,6 +567,8 @@ def o_check_levels(cfg, p, u, info, rec_calls, tol):
             exp_info = [nt - 2, cfg["tag"]]
         elif cfg["solver"] == "real_tuple1":
             exp_info = []
+        elif cfg["solver"] == "cg_tuple":
+            exp_info = [0]
     if info != exp_info:
         return "info %s, expected %s (extra return values of the last solve)" % (info, exp_info)
     return None
@@ -554,6 +598,8 @@ def o_td_observe(cfg, u, time_obs_eff):
             return ("any",)             # evaluation outside the grid: not specified by the property
         if len(tobs) == 0 or len(go) == 0:
             return ("any",)
+        if any(b < a for a, b in zip(tobs, tobs[1:])) or any(b < a for a, b in zip(go, go[1:])):
+            return ("any",)             # interpolation at unsorted points: scipy's gridded evaluation refuses; not specified by the property
         S1 = spline_interp(gs, u, 3, go)                      # (n_obs, nt)
         E = spline_interp(times, S1.T, 3, tobs).T             # (n_obs, n_tobs)
     om = pymap(cfg["omap"])
@@ -571,8 +617,12 @@ def o_td_observe(cfg, u, time_obs_eff):
 
 
 def arr_close(a, b, tol):
+    """purely relative to the largest expected entry (no absolute part): invariant under rescaling of the values"""
     a, b = np.asarray(a, dtype=float), np.asarray(b, dtype=float)
-    return a.shape == b.shape and bool(np.all(np.abs(a - b) <= tol * (1 + np.abs(b))))
+    if a.shape != b.shape:
+        return False
+    m = float(np.max(np.abs(b))) if b.size else 0.0
+    return bool(np.all(np.abs(a - b) <= tol * m))
 
 
 def oracle_td(cfg, p, ob, q):
@@ -642,9 +692,10 @@ def oracle_ss(cfg, p, ob, assembled=True):
     else:
         Ax = fr_matvec(A, x)
         res = max(abs(float(Ax[i] - b[i])) for i in range(n))
-        if res > 1e-8 * (1 + max(abs(float(v)) for v in b)):
+        bscale = max(abs(float(v)) for v in b) + n * max(abs(float(v)) for r in A for v in r) * max(abs(float(v)) for v in x)
+        if res > 1e-8 * bscale:
             return ("A(p) u = b(p) violated: residual %g" % res, "SteadyStateLinearPDE.solve")
-    exp_info = [0, cfg["tag"]] if cfg["solver"] in ("real_tuple", "fake_tuple") else [] if cfg["solver"] == "real_tuple1" else None
+    exp_info = [0, cfg["tag"]] if cfg["solver"] in ("real_tuple", "fake_tuple") else [] if cfg["solver"] == "real_tuple1" else [0] if cfg["solver"] == "cg_tuple" else None
     if ob["info"] != exp_info:
         return ("info %s expected %s" % (ob["info"], exp_info), "LinearPDE._solve_linear_system")
     gs, go = cfg["gsol"], cfg["gobs"]
@@ -753,7 +804,8 @@ def oracle_poly_td(cfg, p, ob):
         return ("%s: observe() = %s but the exactly polynomial solution at (grid_obs, time_obs) is %s (max error %.3g; interpolation used: %s)" % (
             what, o.ravel().tolist()[:6], E.ravel().tolist()[:6], float(np.max(np.abs(o - E))) if o.shape == E.shape else float("nan"), ob["ninterp"] > 0),
             "TimeDependentLinearPDE.observe")
-    if not (same and final) and ob["ninterp"] == 0:
+    coincide = all(idx_of(x, gs) is not None for x in go) and all(idx_of(t, times) is not None for t in tobs)
+    if not coincide and ob["ninterp"] == 0:
         return ("%s: grid_obs differs from grid_sol or time_obs from the final time (max |grid difference| %.3g, |T - time_obs| %.3g) but observe() did not "
                 "interpolate: it returns the final nodal values, off by %.3g from the exact solution there" % (
                     what, max([abs(a - b) for a, b in zip(gs, go)] + [0.0]), abs(times[-1] - tobs[-1]),
@@ -789,6 +841,7 @@ def dyadic_ok(x):
 def exact_safe_td(cfg, p):
     if not cfg["solver"].startswith("fake") and cfg["method"].lower() == "backward_euler":
         return False
+    vs = Fr(2) ** cfg.get("vexp", 0)
     try:
         af, times = cfg["af"], [frac(float(t)) for t in cfg["times"]]
         if not times:
@@ -808,7 +861,7 @@ def exact_safe_td(cfg, p):
                 allv += r
                 u = [r[i] + dt * Ar[i] for i in range(len(u))]
             allv += u
-        return all(dyadic_ok(v) for v in allv)
+        return all(dyadic_ok(v / vs) for v in allv)
     except Exception:
         return False
 
@@ -844,7 +897,7 @@ def witness_runs(cuqi):
 
 def tree_quirks(cuqi):
     w = witness_runs(cuqi)
-    return {"case": w[SIG_CASE][0], "single": w[SIG_SINGLE][0], "tobs": w[SIG_TOBS][0]}, w
+    return {"case": w[SIG_CASE][0], "single": w[SIG_SINGLE][0], "tobs": w[SIG_TOBS][0], "spline": w[SIG_SPL][0]}, w
 
 
 def known_witnesses(ctx):
@@ -934,7 +987,7 @@ def gen_grids(rng, n, rel):
 
 
 TOBS_KINDS = ["final", "FINAL", "all", "All", "arr_final", "list_final", "arr_nodes", "arr_offnodes", "arr_mixed",
-              "arr_final_twice", "arr_empty", "arr_one_node", "badstr", "none"]
+              "arr_final_twice", "arr_empty", "arr_one_node", "arr_unsorted", "badstr", "none"]
 
 
 def gen_tobs(rng, kind, times):
@@ -950,6 +1003,9 @@ def gen_tobs(rng, kind, times):
     if kind == "arr_nodes":
         k = rng.randint(2, max(2, len(times)))
         return sorted(rng.sample(times, min(k, len(times)))), True
+    if kind == "arr_unsorted":
+        k = rng.randint(2, max(2, len(times)))
+        return sorted(rng.sample(times, min(k, len(times))), reverse=True), True
     if kind == "arr_one_node":
         return [rng.choice(times[:-1] if len(times) > 1 else times)], True
     if kind == "arr_offnodes":
@@ -1009,6 +1065,38 @@ def well_conditioned(cfg, p):
         return True
     except Exception:
         return False
+
+
+# ---- value scale: the same problem with source and initial condition (hence the solution) multiplied by 2^vexp ----
+VSCALES = [-60, -30, 30, 60]
+
+
+def scale_af(af, vexp):
+    f = 2.0 ** vexp
+    out = dict(af)
+    for k in ("b0", "bt", "c0", "ct"):
+        out[k] = [f * v for v in af[k]]
+    for k in ("Bp", "Cp"):
+        out[k] = [[f * v for v in r] for r in af[k]]
+    return out
+
+
+def scalar_source_af(rng, af, npar):
+    """the same form with a source that is one number (to be broadcast over the nodes)"""
+    out = dict(af)
+    out["b0"], out["bt"] = [rng.randint(-2, 2)], [rng.choice([0, 1, -1])]
+    out["Bp"] = [[rng.choice([0, 1, -1]) for _ in range(npar)]]
+    return out
+
+
+def spd_af(rng, n, npar, steady):
+    """symmetric operator: steady 4I - lap (positive definite), time dependent lap (negative definite), parameter in the source"""
+    lap = [[(-2 if i == j else 1 if abs(i - j) == 1 else 0) for j in range(n)] for i in range(n)]
+    A0 = [[(6 if i == j else 0) + lap[i][j] for j in range(n)] for i in range(n)] if steady else lap
+    Z = [[0] * n for _ in range(n)]
+    return {"A0": A0, "At": Z, "Ap": [], "b0": [rng.randint(-2, 2) for _ in range(n)], "bt": [rng.choice([0, 1, -1]) for _ in range(n)],
+            "Bp": [[rng.choice([0, 1, -1]) for _ in range(npar)] for _ in range(n)], "c0": [rng.randint(-3, 3) for _ in range(n)], "ct": [0] * n,
+            "Cp": [[1 if i % npar == k else 0 for k in range(npar)] for i in range(n)]}
 
 
 # ---- grid scale x grid perturbation (same length, different positions / same values in another array or dtype) ----
@@ -1134,7 +1222,7 @@ def interp_args_ok(rec):
 
 
 def solver_args_ok(cfg, rec):
-    want = ["tag"] if cfg["solver"] in ("real_tuple", "fake_tuple") else []
+    want = ["tag"] if cfg["solver"] in ("real_tuple", "fake_tuple") else ["rtol"] if cfg["solver"] == "cg_tuple" else []
     return all(c["extra_args"] == 0 and c["kw"] == want for c in rec.solver_calls)
 
 
@@ -1206,8 +1294,10 @@ def model_output(r):
 
 
 def cases_td_forward(cuqi, cfg, plist, a, d, q, cell):
-    """PDEModel.forward, several calls on ONE model/PDE object; each call is a case"""
+    """PDEModel.forward, several calls on ONE model/PDE object; each call is a case.  cfg["reuse_input"]: the caller passes the
+    same array object every time, overwritten in place between the calls"""
     out = []
+    xbuf = np.zeros(len(plist[0]))
     rec = Recorder()
     with Patches(rec):
         r = outcome(lambda: mk_td(cuqi, cfg, rec))
@@ -1218,9 +1308,18 @@ def cases_td_forward(cuqi, cfg, plist, a, d, q, cell):
         pde = r[1]
         model = mk_model(cuqi, pde, len(plist[0]), a, d)
         prev = None
+        alive = []
         for x in plist:
             rec.reset()
-            o = model_output(outcome(lambda: model.forward(np.array(x, dtype=float))))
+            if cfg.get("reuse_input"):
+                xbuf[:] = x
+                xin = xbuf
+            else:
+                xin = np.array(x, dtype=float)
+            raw = outcome(lambda: model.forward(xin))
+            o = model_output(raw)
+            alive.append((len(out), raw[1] if raw[0] == "ok" and isinstance(raw[1], np.ndarray) else None,
+                          np.array(raw[1], copy=True) if raw[0] == "ok" and isinstance(raw[1], np.ndarray) else None, xin.copy(), np.array(x, dtype=float)))
             pf = [a * v + d for v in x]
             tol = td_tol(cfg, pf)
             ok_args = interp_args_ok(rec) and solver_args_ok(cfg, rec)
@@ -1247,7 +1346,21 @@ def cases_td_forward(cuqi, cfg, plist, a, d, q, cell):
             out.append(Case(expr=expr, meta={"kind": "td_forward", "cfg": cfg, "plist": plist, "a": a, "d": d, "pos": len(out)}, cell=cell,
                             impl_fail=fail, signature=sig))
             prev = pf
+        keep_alive(out, alive)
     return out
+
+
+def keep_alive(out, alive):
+    """every output handed out by an earlier forward call, and every input array, is re-read after all later calls"""
+    for pos, obj, copy, xin, xcopy in alive:
+        if pos >= len(out) or out[pos].impl_fail:
+            continue
+        if obj is not None and not (obj.shape == copy.shape and np.array_equal(obj, copy, equal_nan=True)):
+            out[pos].impl_fail = "the array returned by forward call %d was changed by a later call: %s -> %s" % (pos, copy.ravel()[:6].tolist(), obj.ravel()[:6].tolist())
+            out[pos].signature = "PDEModel._forward_func"
+        elif not np.array_equal(xin, xcopy):
+            out[pos].impl_fail = "forward call %d altered its input array: %s -> %s" % (pos, xcopy.tolist(), xin.tolist())
+            out[pos].signature = "PDEModel._forward_func"
 
 
 def drive_td_direct_unpatched(cuqi, cfg, p):
@@ -1290,16 +1403,26 @@ def case_ss_direct(cuqi, cfg, p, cell, assembled=True):
 
 def cases_ss_forward(cuqi, cfg, plist, a, d, cell):
     out = []
+    xbuf = np.zeros(len(plist[0]))
     rec = Recorder()
     with Patches(rec):
         pde = mk_ss(cuqi, cfg, rec)
         model = mk_model(cuqi, pde, len(plist[0]), a, d)
         prev = None
+        alive = []
         for x in plist:
             rec.reset()
-            o = model_output(outcome(lambda: model.forward(np.array(x, dtype=float))))
+            if cfg.get("reuse_input"):
+                xbuf[:] = x
+                xin = xbuf
+            else:
+                xin = np.array(x, dtype=float)
+            raw = outcome(lambda: model.forward(xin))
+            o = model_output(raw)
+            own = raw[0] == "ok" and isinstance(raw[1], np.ndarray) and cfg["solver"] != "real_buffer"
+            alive.append((len(out), raw[1] if own else None, np.array(raw[1], copy=True) if own else None, xin.copy(), np.array(x, dtype=float)))
             pf = [a * v + d for v in x]
-            tol = "0" if cfg["solver"].startswith("fake") else "12"
+            tol = cfg.get("tol") or ("0" if cfg["solver"].startswith("fake") else "12")
             ok_args = interp_args_ok(rec) and solver_args_ok(cfg, rec)
             expr = "check_ss_forward %s %s %s %s %s %s && %s" % (
                 ss_cfg_term(cfg, rec, tol), qcs(a), qcs(d), "None" if prev is None else "(Some %s)" % qcv(prev), qcv(x), cres(o, carr), cbool(ok_args))
@@ -1320,7 +1443,49 @@ def cases_ss_forward(cuqi, cfg, plist, a, d, cell):
             out.append(Case(expr=expr, meta={"kind": "ss_forward", "cfg": cfg, "plist": plist, "a": a, "d": d, "pos": len(out)}, cell=cell,
                             impl_fail=fail, signature=sig))
             prev = pf
+        keep_alive(out, alive)
     return out
+
+
+# ---------------- solutions with two space axes: solution.ndim = 3 ----------------
+def case_observe_3d(cuqi, rng, q, gkind, tkind):
+    n1, n2, nt = rng.randint(2, 3), rng.randint(2, 3), rng.randint(3, 5)
+    times = gen_times(rng, "nonuniform", nt)
+    tobs, _ = gen_tobs(rng, tkind, times)
+    g = [0.5 * i for i in range(n1)]
+    gs, go = {"none": (None, None), "equal": (g, list(g)), "differ": (g, [v + 0.25 for v in g[:-1]] + [g[-1]])}[gkind]
+    sol = np.array([[[rng.randint(-9, 9) for _ in range(nt)] for _ in range(n2)] for _ in range(n1)], dtype=float)
+    pde = cuqi.pde.TimeDependentLinearPDE(lambda p, t: (np.eye(n1), np.zeros(n1), p), np.array(times), time_obs=np.array(tobs) if isinstance(tobs, list) else tobs,
+                                          grid_sol=aslist(gs), grid_obs=aslist(go))
+    keep = sol.copy()
+    o = outcome(lambda: np.asarray(pde.observe(sol), dtype=float))
+    tl = [times[-1]] if isinstance(tobs, str) and tobs.lower() == "final" else list(times) if isinstance(tobs, str) else list(tobs)
+    same = go is None or gs is None or gs == go
+    final = tl == [times[-1]]
+    ti = [idx_of(t, times) for t in tl]
+    fail = None
+    if o[0] == "ok":
+        a = o[1]
+        mats = [a] if a.ndim == 2 else [a[..., j] for j in range(a.shape[-1])] if a.ndim == 3 else None
+        enc = "(Ok %s)" % clist([qcm(m) for m in mats]) if mats is not None else "(Er EOther)"
+        if not same or any(i is None for i in ti):
+            fail = "observe() returned a value for a solution with two space axes where an interpolation would be needed"
+        else:
+            E = sol[..., ti]
+            if len(tl) == 1:
+                E = E.squeeze()
+            if a.shape != E.shape or not np.array_equal(a, E):
+                fail = "observe() on a (n1, n2, nt) solution: got shape %s, the stored slices at the requested times have shape %s" % (a.shape, E.shape)
+    else:
+        enc = "(Er %s)" % ecode(o[1])
+        if same and final:
+            fail = "observe() raised %s for (equal grids, final time) on a solution with two space axes" % o[1]
+    if not np.array_equal(sol, keep):
+        fail = "observe() altered the solution array it was given"
+    expr = "check_observe_2dspace %s %s %s %s %s %s %s" % (cquirks(q), cgrid(gs), cgrid(go), qcv(times), ctobs(tobs),
+                                                       clist([qcm(sol[..., k]) for k in range(nt)]), enc)
+    return Case(expr=expr, meta={"kind": "observe3d", "gkind": gkind, "tkind": tkind, "times": times, "tobs": tobs, "sol": sol.tolist()},
+                cell="td/observe-2dspace/%s/%s" % (gkind, tkind), kind="DECISION", impl_fail=fail, signature="TimeDependentLinearPDE.observe" if fail else "")
 
 
 # ---------------- grids bookkeeping ----------------
@@ -1416,6 +1581,14 @@ def tp_field_kwargs(field):
         return {"field_type": "Step", "field_params": {"n_steps": 3}}
     if field == "exp":
         return {"map": np.exp, "imap": np.log}
+    if field == "KL":
+        return {"field_type": "KL", "field_params": {"num_modes": 3}}
+    if field == "KL_Full":
+        return {"field_type": "KL_Full", "field_params": {"std": 1.0, "cor_len": 0.3, "nu": 2.0}}
+    if field == "CustomKL":
+        return {"field_type": "CustomKL", "field_params": {"mean": 1.0, "std": 0.5, "trunc_term": 3}}
+    if field == "KL+exp":
+        return {"field_type": "KL", "field_params": {"num_modes": 3}, "map": np.exp, "imap": np.log}
     return {}
 
 
@@ -1432,6 +1605,7 @@ def case_tp_poisson(cuqi, q, dim, ogm, x, field=None):
                         signature="Poisson1D.model")
         tp = r[1]
         pde = tp.model.pde
+        x = x[:tp.model.domain_dim]
         rec.reset()
         o = model_output(outcome(lambda: tp.model.forward(np.array(x))))
     xf = np.asarray(tp.model.domain_geometry.par2fun(np.array(x)), dtype=float)
@@ -1465,6 +1639,7 @@ def case_tp_heat(cuqi, q, dim, mt, ogm, x, field=None):
                     signature="Heat1D.model")
     tp = r[1]
     pde = tp.model.pde
+    x = x[:tp.model.domain_dim]
     times = np.asarray(pde.time_steps, float).tolist()
     tb = []
     xf = np.asarray(tp.model.domain_geometry.par2fun(np.array(x)), dtype=float)
@@ -1506,16 +1681,20 @@ def case_tp_heat(cuqi, q, dim, mt, ogm, x, field=None):
 
 
 def cases_testproblems(cuqi, ctx, q, cases):
+    """x is generated longer than needed and cut to the problem's parameter dimension (KL modes, steps, nodes)"""
     rng = ctx.rng
-    for dim, ogm, field in [(5, None, None), (6, None, None), (6, "sub", None), (7, None, "Step"), (5, "sub", "exp")] + (
-            [(9, None, None), (8, "sub", None), (10, "sub", "Step"), (7, None, "exp")] if ctx.thorough else []):
-        npar = 3 if field == "Step" else dim
-        x = [rng.choice([0.5, 1.0, 0.25, 1.5] if field == "exp" else [1.0, 1.5, 2.0, 3.0]) for _ in range(npar)]
+    for dim, ogm, field in [(5, None, None), (6, None, None), (6, "sub", None), (7, None, "Step"), (5, "sub", "exp"), (8, None, "KL+exp"),
+                            (8, "sub", "CustomKL"), (7, None, "KL_Full")] + (
+            [(9, None, None), (8, "sub", None), (10, "sub", "Step"), (7, None, "exp"), (10, "sub", "KL+exp"), (9, None, "CustomKL")] if ctx.thorough else []):
+        x = [rng.choice([0.5, 1.0, 0.25, 1.5] if field in ("exp", "KL+exp", "CustomKL", "KL_Full") else [1.0, 1.5, 2.0, 3.0]) for _ in range(16)]
+        if field == "KL_Full":
+            x = [0.125 * v for v in x]
+            x[0] = 0.0
         cases.add("testproblem/Poisson1D", "tp_poisson", lambda: case_tp_poisson(cuqi, q, dim, ogm, x, field), dim=dim, ogm=ogm, x=x, field=field)
-    for dim, mt, ogm, field in [(3, 0.1, None, None), (4, 0.08, None, None), (5, 0.08, "sub", None), (6, 0.02, None, "Step"), (4, 0.06, None, "exp")] + (
-            [(6, 0.03, None, None), (7, 0.04, "sub", None), (7, 0.04, "sub", "Step")] if ctx.thorough else []):
-        npar = 3 if field == "Step" else dim
-        x = [rng.choice([0.5, 1.0, 1.5, 2.0]) for _ in range(npar)]
+    for dim, mt, ogm, field in [(3, 0.1, None, None), (4, 0.08, None, None), (5, 0.08, "sub", None), (6, 0.02, None, "Step"), (4, 0.06, None, "exp"),
+                                (6, 0.02, None, "KL"), (6, 0.02, None, "KL_Full"), (8, 0.02, None, "CustomKL"), (6, 0.03, "sub", "KL+exp")] + (
+            [(6, 0.03, None, None), (7, 0.04, "sub", None), (7, 0.04, "sub", "Step"), (9, 0.01, None, "KL"), (7, 0.04, "sub", "CustomKL")] if ctx.thorough else []):
+        x = [rng.choice([0.5, 1.0, 1.5, 2.0, -1.0]) for _ in range(16)]
         cases.add("testproblem/Heat1D", "tp_heat", lambda: case_tp_heat(cuqi, q, dim, mt, ogm, x, field), dim=dim, max_time=mt, ogm=ogm, x=x, field=field)
 
 
@@ -1724,6 +1903,150 @@ def run(ctx):
                         plist = [p, [rng.choice([1.0, -1.0, 2.0])]]
                         cell = "td/time-pert-forward/2^-%d/%s" % (tp, pert_name(pt))
                         cases.add(cell, "td_forward", lambda: cases_td_forward(cuqi, cfg, plist, 1, 0, q, cell), cfg=cfg, plist=plist, a=1, d=0)
+
+    # ---- 5c. VALUE scale 2^-60..2^60 (source and initial condition scaled; all comparisons purely relative) -----------------------
+    k = 0
+    for _ in range(reps if not ctx.thorough else 2):
+        for vexp in VSCALES:
+            for method, sk in [("forward_euler", "default"), ("backward_euler", "fake_tuple"), ("backward_euler", "default"), ("backward_euler", "real_tuple")]:
+                for rel, tkind, om0 in [("sol_only", "final", "none"), ("offnodes", "arr_offnodes", "square"), ("subgrid", "all", "scale"), ("sol_only", "arr_mixed", "mat")]:
+                    k += 1
+                    n, nt = rng.randint(4, nmax), rng.randint(4, nmax)
+                    npar = rng.randint(1, n)
+                    for attempt in range(20):
+                        times = gen_times(rng, rng.choice(["uniform", "nonuniform"]), nt)
+                        gs, go = gen_grids(rng, n, rel)
+                        tobs, as_arr = gen_tobs(rng, tkind, times)
+                        om = fix_omap(rng, gen_omap(rng, om0, n), n if (go is None or gs is None) else len(go))
+                        cfg = {"af": scale_af(gen_af(rng, n, npar, "all", True), vexp), "vexp": vexp, "times": times, "method": method, "solver": sk, "tag": 9,
+                               "gsol": gs, "gobs": go, "tobs": tobs, "tobs_as_array": as_arr, "omap": om}
+                        p = gen_p(rng, npar)
+                        if sk.startswith("fake") or method == "forward_euler" or well_conditioned(cfg, p):
+                            break
+                    cell = "td/value-scale/2^%d/%s/%s/%s" % (vexp, method, sk, tkind)
+                    if k % 2:
+                        cases.add(cell, "td_direct", lambda: case_td_direct(cuqi, cfg, p, q, cell), cfg=cfg, p=p)
+                    else:
+                        plist = [p, gen_p(rng, npar)]
+                        cases.add(cell, "td_forward", lambda: cases_td_forward(cuqi, cfg, plist, 1, 0, q, cell), cfg=cfg, plist=plist, a=1, d=0)
+            for sk in ["default", "fake", "real_tuple"]:
+                for rel, om0 in [("sol_only", "none"), ("offnodes", "square"), ("subgrid", "mat")]:
+                    k += 1
+                    n = rng.randint(3, nmax)
+                    npar = rng.randint(1, n)
+                    gs, go = gen_grids(rng, n, rel)
+                    om = fix_omap(rng, gen_omap(rng, om0, n), n if (go is None or gs is None) else len(go))
+                    for attempt in range(20):
+                        cfg = {"steady": True, "af": scale_af(gen_af(rng, n, npar, "source", False, steady=True), vexp), "vexp": vexp, "solver": sk, "tag": 4,
+                               "gsol": gs, "gobs": go, "omap": om}
+                        plist = [gen_p(rng, npar) for _ in range(2)]
+                        if sk.startswith("fake") or all(well_conditioned(cfg, x) for x in plist):
+                            break
+                    cell = "ss/value-scale/2^%d/%s/%s" % (vexp, sk, rel)
+                    cases.add(cell, "ss_direct", lambda: case_ss_direct(cuqi, cfg, plist[0], cell), cfg=cfg, p=plist[0], assembled=True)
+                    if k % 2:
+                        cases.add(cell, "ss_forward", lambda: cases_ss_forward(cuqi, cfg, plist, 1, 0, cell), cfg=cfg, plist=plist, a=1, d=0)
+
+    # ---- 5d. declaration styles of the same objects: sparse operators and the shipped sparse / iterative solver routes, scalar sources,
+    #          PDE forms writing into persistent buffers, solvers overwriting their inputs / returning one reused buffer ------------------
+    for _ in range(reps if not ctx.thorough else 2):
+        for fmt in ["csr", "csc", "dia"]:
+            for method, sk in [("forward_euler", "default"), ("backward_euler", "default"), ("backward_euler", "spsolve"), ("backward_euler", "cg_tuple")]:
+                n, nt, npar = rng.randint(3, nmax), rng.randint(3, nmax), 2
+                for attempt in range(20):
+                    af = spd_af(rng, n, npar, False) if sk == "cg_tuple" else gen_af(rng, n, npar, "all", True)     # CG needs symmetry
+                    cfg = {"af": af, "style": {"sparse": fmt}, "times": gen_times(rng, "nonuniform", nt), "method": method, "solver": sk,
+                           "tag": 0, "gsol": None, "gobs": None, "tobs": "final", "omap": ["none"]}
+                    p = gen_p(rng, npar)
+                    if method == "forward_euler" or (well_conditioned(cfg, p) and well_conditioned(cfg, [2 * v for v in p])):
+                        break
+                cell = "td/style/sparse-%s/%s/%s" % (fmt, method, sk)
+                cases.add(cell, "td_direct", lambda: case_td_direct(cuqi, cfg, p, q, cell), cfg=cfg, p=p)
+                plist = [p, [2 * v for v in p]]
+                cases.add(cell, "td_forward", lambda: cases_td_forward(cuqi, cfg, plist, 1, 0, q, cell + "/forward"), cfg=cfg, plist=plist, a=1, d=0)
+            for sk in ["spsolve", "cg_tuple"]:
+                n, npar = rng.randint(3, nmax), 2
+                for attempt in range(20):
+                    af = spd_af(rng, n, npar, True) if sk == "cg_tuple" else gen_af(rng, n, npar, "all", False, steady=True)
+                    cfg = {"steady": True, "af": af, "style": {"sparse": fmt}, "solver": sk, "tag": 0, "gsol": None, "gobs": None, "omap": ["none"]}
+                    plist = [gen_p(rng, npar), gen_p(rng, npar)]
+                    if all(well_conditioned(cfg, x) for x in plist):
+                        break
+                cell = "ss/style/sparse-%s/%s" % (fmt, sk)
+                cases.add(cell, "ss_direct", lambda: case_ss_direct(cuqi, cfg, plist[0], cell), cfg=cfg, p=plist[0], assembled=True)
+                cases.add(cell, "ss_forward", lambda: cases_ss_forward(cuqi, cfg, plist, 1, 0, cell + "/forward"), cfg=cfg, plist=plist, a=1, d=0)
+        for sk in ["cg_tuple", "spsolve"]:          # the same routes on dense operators
+            n, npar = rng.randint(3, nmax), 2
+            cfg = {"steady": True, "af": spd_af(rng, n, npar, True), "solver": sk, "tag": 0, "gsol": None, "gobs": None, "omap": ["none"]}
+            p = gen_p(rng, npar)
+            cases.add("ss/style/dense/%s" % sk, "ss_direct", lambda: case_ss_direct(cuqi, cfg, p, "ss/style/dense/%s" % sk), cfg=cfg, p=p, assembled=True)
+        for src in ["scalar", "one"]:
+            for method, sk in [("forward_euler", "default"), ("backward_euler", "fake"), ("backward_euler", "default")]:
+                for nt in [1, 2, 5]:
+                    n, npar = rng.randint(2, nmax), 2
+                    cfg = {"af": scalar_source_af(rng, gen_af(rng, n, npar, "ic", True), npar), "style": {"src": src}, "times": gen_times(rng, "nonuniform", nt),
+                           "method": method, "solver": sk, "tag": 0, "gsol": None, "gobs": None, "tobs": "final", "omap": ["none"]}
+                    for attempt in range(20):
+                        p = gen_p(rng, npar)
+                        if sk == "fake" or method == "forward_euler" or well_conditioned(cfg, p):
+                            break
+                    cell = "td/style/source-%s/%s/%s" % (src, method, sk)
+                    cases.add(cell, "td_direct", lambda: case_td_direct(cuqi, cfg, p, q, cell, trivial=(nt == 1)), cfg=cfg, p=p)
+        for method, sk in [("forward_euler", "default"), ("backward_euler", "default"), ("backward_euler", "real_inplace"), ("backward_euler", "real_buffer"),
+                           ("backward_euler", "fake")]:
+            for buffered in (True, False):
+                if not buffered and sk in ("default", "fake"):
+                    continue
+                n, nt, npar = rng.randint(3, nmax), rng.randint(3, nmax), 3
+                for attempt in range(20):
+                    cfg = {"af": gen_af(rng, n, npar, "all", True), "style": {"buffered": buffered}, "reuse_input": True,
+                           "times": gen_times(rng, "nonuniform", nt), "method": method, "solver": sk, "tag": 0, "gsol": gen_grid(rng, n), "gobs": None, "tobs": rng.choice(["final", "all"]) if nt >= 4 else "final", "omap": ["none"]}
+                    plist = [gen_p(rng, npar) for _ in range(3)]
+                    if sk == "fake" or method == "forward_euler" or all(well_conditioned(cfg, x) for x in plist):
+                        break
+                cell = "td/style/%s/%s/%s" % ("buffered-form" if buffered else "fresh-form", method, sk)
+                cases.add(cell, "td_forward", lambda: cases_td_forward(cuqi, cfg, plist, 1, 0, q, cell), cfg=cfg, plist=plist, a=1, d=0)
+                cases.add(cell, "td_direct", lambda: case_td_direct(cuqi, cfg, plist[0], q, cell), cfg=cfg, p=plist[0])
+        for sk in ["default", "real_buffer", "fake"]:
+            n, npar = rng.randint(3, nmax), 2
+            for attempt in range(20):
+                cfg = {"steady": True, "af": gen_af(rng, n, npar, "operator", False, steady=True), "style": {"buffered": True}, "reuse_input": True,
+                       "solver": sk, "tag": 0,
+                       "gsol": None, "gobs": None, "omap": ["none"]}
+                plist = [gen_p(rng, npar) for _ in range(3)]
+                if sk == "fake" or all(well_conditioned(cfg, x) for x in plist):
+                    break
+            cell = "ss/style/buffered-form/%s" % sk
+            cases.add(cell, "ss_forward", lambda: cases_ss_forward(cuqi, cfg, plist, 1, 0, cell), cfg=cfg, plist=plist, a=1, d=0)
+
+        # histories of NEARLY identical parameters (relative 2^-12 / 2^-30 and absolute 2^-40 changes, then back): no call may reuse what an
+        # earlier call assembled or solved
+        for kind, sk, method in [("ss", "fake", None), ("ss", "default", None), ("td", "default", "forward_euler"), ("td", "fake", "backward_euler"),
+                                 ("td", "default", "backward_euler")]:
+            for role in ["operator", "all"]:
+                n, npar = rng.randint(3, nmax), 2
+                for attempt in range(20):
+                    p0 = gen_p(rng, npar)
+                    plist = [p0, [p0[0] * (1 + 2.0 ** -12), p0[1]], [p0[0] * (1 + 2.0 ** -30), p0[1] + 2.0 ** -40], p0, [p0[0], p0[1] * (1 - 2.0 ** -20)]]
+                    if kind == "ss":
+                        cfg = {"steady": True, "af": gen_af(rng, n, npar, role, False, steady=True), "solver": sk, "tag": 0, "gsol": None, "gobs": None,
+                               "omap": ["none"], "tol": "12"}
+                    else:
+                        cfg = {"af": gen_af(rng, n, npar, role, True), "times": gen_times(rng, "nonuniform", rng.randint(3, 5)), "method": method, "solver": sk,
+                               "tag": 0, "gsol": None, "gobs": None, "tobs": "final", "omap": ["none"], "tol": "12"}
+                    if sk == "fake" or method == "forward_euler" or all(well_conditioned(cfg, x) for x in plist):
+                        break
+                cell = "%s/history-near-identical/%s/%s/%s" % (kind, sk, method or "steady", role)
+                if kind == "ss":
+                    cases.add(cell, "ss_forward", lambda: cases_ss_forward(cuqi, cfg, plist, 1, 0, cell), cfg=cfg, plist=plist, a=1, d=0)
+                else:
+                    cases.add(cell, "td_forward", lambda: cases_td_forward(cuqi, cfg, plist, 1, 0, q, cell), cfg=cfg, plist=plist, a=1, d=0)
+
+    # ---- 5e. solutions with two space axes (solution.ndim = 3): restriction route vs the refusing interpolation route -------------------
+    for _ in range(reps):
+        for gkind in ["none", "equal", "differ"]:
+            for tkind in ["final", "arr_final", "arr_one_node", "all", "arr_nodes", "arr_offnodes", "arr_mixed"]:
+                cases.add("td/observe-2dspace/%s/%s" % (gkind, tkind), "observe3d", lambda: case_observe_3d(cuqi, rng, q, gkind, tkind))
 
     # ---- 6. grids bookkeeping, gradient dispatch, shipped test problems ---------------------------------------------------
     for _ in range(ctx.n(40, 400)):
